@@ -757,7 +757,11 @@ func (l *lexer) readHeredocs() bool {
 					break Heredoc
 				}
 				// store <newline>
-				if w1, ok := l.word[len(l.word)-1].(*ast.Lit); ok {
+				var w1 *ast.Lit
+				if len(l.word) != 0 {
+					w1, _ = l.word[len(l.word)-1].(*ast.Lit)
+				}
+				if w1 != nil {
 					w1.Value += "\n"
 					// concatenate
 					if len(l.word) > 1 {
